@@ -31,6 +31,13 @@ theorem scalarEq_eq : ∀ {a b : Ty}, scalarEq a b = true → a = b
   | .array l a, .array l' b, h => by
     simp only [scalarEq, Bool.and_eq_true, beq_iff_eq] at h
     rw [h.1.1.1, scalarEq_eq h.2]
+  | .func as r, .func bs r', h => by
+    simp only [scalarEq, Bool.and_eq_true] at h
+    rw [scalarEqs_eq h.1, scalarEq_eq h.2]
+  | .func _ _, .unit, h | .func _ _, .bool, h | .func _ _, .string, h | .func _ _, .int _ _, h | .func _ _, .struct _, h
+  | .func _ _, .enum _, h | .func _ _, .float _, h | .func _ _, .ref _, h | .func _ _, .dyn _, h | .func _ _, .app _ _, h
+  | .func _ _, .tuple _, h | .func _ _, .vec _, h | .func _ _, .param _, h | .func _ _, .array _ _, h | .func _ _, .tvar _, h => by
+    simp [scalarEq] at h
   | .array _ _, .unit, h | .array _ _, .bool, h | .array _ _, .string, h | .array _ _, .int _ _, h | .array _ _, .struct _, h
   | .array _ _, .enum _, h | .array _ _, .float _, h | .array _ _, .ref _, h | .array _ _, .dyn _, h | .array _ _, .app _ _, h
   | .array _ _, .tuple _, h | .array _ _, .vec _, h | .array _ _, .param _, h | .array _ _, .func _ _, h | .array _ _, .tvar _, h => by
@@ -46,7 +53,6 @@ theorem scalarEq_eq : ∀ {a b : Ty}, scalarEq a b = true → a = b
   | .app _ _, b, h => by cases b <;> simp [scalarEq] at h
   | .vec _, b, h => by cases b <;> simp [scalarEq] at h
   | .param _, b, h => by cases b <;> simp [scalarEq] at h
-  | .func _ _, b, h => by cases b <;> simp [scalarEq] at h
   | .tvar _, b, h => by cases b <;> simp [scalarEq] at h
   | .ref _, .unit, h | .ref _, .bool, h | .ref _, .string, h | .ref _, .int _ _, h | .ref _, .struct _, h
   | .ref _, .enum _, h | .ref _, .float _, h | .ref _, .tuple _, h | .ref _, .dyn _, h | .ref _, .app _ _, h
@@ -72,8 +78,11 @@ theorem scalarEq_refl : ∀ {a : Ty}, flatTy a = true → scalarEq a a = true
   | .array len e, h => by
     simp only [flatTy, Bool.and_eq_true] at h
     simp only [scalarEq, beq_self_eq_true, Bool.true_and, Bool.and_eq_true]; exact ⟨h.1, scalarEq_refl h.2⟩
+  | .func ps r, h => by
+    simp only [flatTy, Bool.and_eq_true] at h
+    simp only [scalarEq, Bool.and_eq_true]; exact ⟨scalarEqs_refl h.1, scalarEq_refl h.2⟩
   | .unit, _ | .bool, _ | .string, _ | .int _ _, _ | .struct _, _ | .enum _, _ => by simp [scalarEq]
-  | .float _, h | .dyn _, h | .app _ _, h | .vec _, h | .param _, h | .func _ _, h
+  | .float _, h | .dyn _, h | .app _ _, h | .vec _, h | .param _, h
   | .tvar _, h => by simp [flatTy, scalarTy] at h
 theorem scalarEqs_refl : ∀ {ts : List Ty}, flatTys ts = true → scalarEqs ts ts = true
   | [], _ => rfl
@@ -90,8 +99,11 @@ theorem scalarEq_self_flat : ∀ {a : Ty}, scalarEq a a = true → flatTy a = tr
   | .array len e, h => by
     simp only [scalarEq, Bool.and_eq_true] at h
     simp only [flatTy, Bool.and_eq_true]; exact ⟨⟨h.1.1.2, h.1.2⟩, scalarEq_self_flat h.2⟩
+  | .func ps r, h => by
+    simp only [scalarEq, Bool.and_eq_true] at h
+    simp only [flatTy, Bool.and_eq_true]; exact ⟨scalarEqs_self_flat h.1, scalarEq_self_flat h.2⟩
   | .unit, _ | .bool, _ | .string, _ | .int _ _, _ | .struct _, _ | .enum _, _ => rfl
-  | .float _, h | .dyn _, h | .app _ _, h | .vec _, h | .param _, h | .func _ _, h
+  | .float _, h | .dyn _, h | .app _ _, h | .vec _, h | .param _, h
   | .tvar _, h => by simp [scalarEq] at h
 theorem scalarEqs_self_flat : ∀ {ts : List Ty}, scalarEqs ts ts = true → flatTys ts = true
   | [], _ => rfl
@@ -110,14 +122,16 @@ theorem scalarEq_flat {a b : Ty} (h : scalarEq a b = true) : flatTy a = true := 
 structure Hp where
   tys : List Ty := []
   locs : List Nat := []
+  /-- the functions that may occur as values (`GoFrag.fnSigs`): name, parameter types, result type; constant along a run -/
+  fns : List (String × List Ty × Ty) := []
   deriving Inhabited
 
-/-- the store grew: old cells keep their type and their Go location -/
-def Hp.le (η η' : Hp) : Prop := η.tys <+: η'.tys ∧ η.locs <+: η'.locs
+/-- the store grew: old cells keep their type and their Go location (the function table stays) -/
+def Hp.le (η η' : Hp) : Prop := η.tys <+: η'.tys ∧ η.locs <+: η'.locs ∧ η'.fns = η.fns
 
-theorem Hp.le_refl (η : Hp) : η.le η := ⟨List.prefix_refl _, List.prefix_refl _⟩
+theorem Hp.le_refl (η : Hp) : η.le η := ⟨List.prefix_refl _, List.prefix_refl _, rfl⟩
 theorem Hp.le_trans {a b c : Hp} (h1 : a.le b) (h2 : b.le c) : a.le c :=
-  ⟨List.IsPrefix.trans h1.1 h2.1, List.IsPrefix.trans h1.2 h2.2⟩
+  ⟨List.IsPrefix.trans h1.1 h2.1, List.IsPrefix.trans h1.2.1 h2.2.1, by rw [h2.2.2, h1.2.2]⟩
 
 theorem prefix_get {α : Type} {l l' : List α} (h : l <+: l') {i : Nat} {a : α} (hi : l[i]? = some a) : l'[i]? = some a := by
   obtain ⟨t, rfl⟩ := h
@@ -140,6 +154,7 @@ def tyOfVal (η : Hp) : Val → Option Ty
   | .tuple vs => (tysOfVals η vs).map Ty.tuple
   | .array [] => none
   | .array (v :: vs) => (tyOfVal η v).map (Ty.array (vs.length + 1))
+  | .fn name => (η.fns.find? (·.1 == name)).map fun e => Ty.func e.2.1 e.2.2
   | _ => none
 def tysOfVals (η : Hp) : List Val → Option (List Ty)
   | [] => some []
@@ -176,6 +191,7 @@ def toGV (env : Env) (η : Hp) : Val → Option GVal
     | some ts, some gs => some (.struct (goTypeNameFor (.tuple ts)) ((fieldNames 0 gs.length).zip gs))
     | _, _ => none
   | .array vs => (toGVs env η vs).map GVal.array
+  | .fn name => some (.func (vn name))
   | _ => none
 def toGVs (env : Env) (η : Hp) : List Val → Option (List GVal)
   | [] => some []
@@ -209,6 +225,7 @@ def HasTy (env : Env) (η : Hp) : Val → Ty → Prop
   | .ref l, .ref e => η.tys[l]? = some e
   | .tuple vs, .tuple ts => HasTys env η vs ts
   | .array vs, .array len e => 1 ≤ len ∧ HasTys env η vs (List.replicate len e)
+  | .fn name, .func ps r => η.fns.find? (·.1 == name) = some (name, ps, r)
   | _, _ => False
 def HasTys (env : Env) (η : Hp) : List Val → List Ty → Prop
   | [], [] => True
@@ -250,7 +267,8 @@ theorem WRel.print {env : Env} {η : Hp} {w : World} {gw : GWorld} (hw : WRel en
   ⟨by simp [hw.out], hw.externs, hw.lenT, hw.lenL, hw.inj, hw.bound, hw.cells⟩
 
 /-- the empty store against the empty heap -/
-theorem WRel.init (env : Env) (eager : Bool) (cp : Nat) : WRel env {} { eager := eager } { eager := eager, capPolicy := cp } :=
+theorem WRel.init (env : Env) (eager : Bool) (cp : Nat) (fns : List (String × List Ty × Ty) := []) :
+    WRel env { fns := fns } { eager := eager } { eager := eager, capPolicy := cp } :=
   ⟨rfl, rfl, rfl, rfl, List.nodup_nil, fun gl h => by simp [Hp.locs] at h, fun l v h => by simp at h⟩
 
 /-! ### environments -/
@@ -378,7 +396,8 @@ theorem tyOfVal_mono {η η' : Hp} (hle : η.le η') : ∀ (v : Val) (t : Ty), t
     cases h1 : tyOfVal η v with
     | none => rw [h1] at h; simp at h
     | some e => rw [h1] at h; rw [tyOfVal_mono hle v e h1]; exact h
-  | .float _ _, t, h | .vec _, t, h | .closure _ _ _, t, h | .fn _, t, h | .dyn _ _ _, t, h => by
+  | .fn name, t, h => by simp only [tyOfVal, hle.2.2] at h ⊢; exact h
+  | .float _ _, t, h | .vec _, t, h | .closure _ _ _, t, h | .dyn _ _ _, t, h => by
     simp [tyOfVal] at h
 theorem tysOfVals_mono {η η' : Hp} (hle : η.le η') : ∀ (vs : List Val) (ts : List Ty), tysOfVals η vs = some ts → tysOfVals η' vs = some ts
   | [], ts, h => by simpa [tysOfVals] using h
@@ -414,13 +433,13 @@ theorem toGV_mono {env : Env} {η η' : Hp} (hle : η.le η') : ∀ (v : Val) (g
     | some gs => rw [hgs] at h; rw [toGVs_mono hle vs gs hgs]; exact h
   | .vec _, gv, h => by simp [toGV] at h
   | .closure _ _ _, gv, h => by simp [toGV] at h
-  | .fn _, gv, h => by simp [toGV] at h
+  | .fn _, gv, h => by simpa [toGV] using h
   | .dyn _ _ _, gv, h => by simp [toGV] at h
   | .ref l, gv, h => by
     simp only [toGV] at h ⊢
     cases hl : η.locs[l]? with
     | none => rw [hl] at h; simp at h
-    | some gl => rw [hl] at h; rw [prefix_get hle.2 hl]; exact h
+    | some gl => rw [hl] at h; rw [prefix_get hle.2.1 hl]; exact h
   | .structV n vs, gv, h => by
     simp only [toGV] at h ⊢
     cases hd : env.getStruct n with
@@ -485,7 +504,9 @@ theorem HasTy_mono {env : Env} {η η' : Hp} (hle : η.le η') : ∀ (v : Val) (
     exact ⟨h.1, HasTys_mono hle vs _ h.2⟩
   | .vec _, t, h => by cases t <;> simp only [HasTy] at h
   | .closure _ _ _, t, h => by cases t <;> simp only [HasTy] at h
-  | .fn _, t, h => by cases t <;> simp only [HasTy] at h
+  | .fn _, t, h => by
+    cases t <;> simp only [HasTy] at h ⊢ <;> try exact h.elim
+    rw [hle.2.2]; exact h
   | .dyn _ _ _, t, h => by cases t <;> simp only [HasTy] at h
 theorem HasTys_mono {env : Env} {η η' : Hp} (hle : η.le η') : ∀ (vs : List Val) (ts : List Ty), HasTys env η vs ts → HasTys env η' vs ts
   | [], [], _ => by simp [HasTys]
@@ -623,7 +644,8 @@ theorem flat_not_absurd : ∀ {t : Ty}, flatTy t = true → absurdTy (goTy t) = 
     simp only [goTy, absurdTy, flat_not_absurd h.2, Bool.or_false, decide_eq_false_iff_not]
     omega
   | .unit, _ | .bool, _ | .string, _ | .int _ _, _ | .struct _, _ | .enum _, _ => by simp [goTy, absurdTy]
-  | .float _, h | .dyn _, h | .app _ _, h | .vec _, h | .param _, h | .func _ _, h
+  | .func _ _, _ => by simp [goTy, absurdTy]
+  | .float _, h | .dyn _, h | .app _ _, h | .vec _, h | .param _, h
   | .tvar _, h => by simp [flatTy, scalarTy] at h
 theorem flats_not_absurd : ∀ (i : Nat) {ts : List Ty}, flatTys ts = true → absurdFields (goTyFields i ts) = false
   | i, [], _ => by rw [goTyFields, absurdFields]
@@ -674,7 +696,9 @@ theorem tyOfVal_hasTy {env : Env} {η : Hp} : ∀ (v : Val) (t : Ty), HasTy env 
       simp [tyOfVal, tyOfVal_hasTy v e h2.1, hlen]
   | .vec _, t, h => by cases t <;> simp [HasTy] at h
   | .closure _ _ _, t, h => by cases t <;> simp [HasTy] at h
-  | .fn _, t, h => by cases t <;> simp [HasTy] at h
+  | .fn _, t, h => by
+    cases t <;> simp only [HasTy] at h <;> try exact h.elim
+    simp [tyOfVal, h]
   | .dyn _ _ _, t, h => by cases t <;> simp [HasTy] at h
 theorem tysOfVals_hasTys {env : Env} {η : Hp} : ∀ (vs : List Val) (ts : List Ty), HasTys env η vs ts → tysOfVals η vs = some ts
   | [], [], _ => rfl
